@@ -378,7 +378,10 @@ def filter_mc_sharemem(filename, step_size, box_size, cores, shape,
             method = 'fork'
         ctx = multiprocessing.get_context(method)
         barrier = ctx.Barrier(parties=len(ymaxs))
-        pool = ctx.Pool(processes=cores, maxtasksperchild=1,
+        # all stripes synchronise on the barrier, so they all have to run at
+        # the same time: fewer processes than stripes would block forever
+        nproc = max(cores, len(ymaxs))
+        pool = ctx.Pool(processes=nproc, maxtasksperchild=1,
                         initializer=init, initargs=(barrier, memory_id))
         try:
             # chunksize=1 ensures that we only send a single task to each
